@@ -31,6 +31,9 @@ LITERAL_ITEMS = [
     (['Ord', 'PartialOrd', 'Eq', 'PartialEq'], 'struct X { #[ord(by = |a, b| { let _ = "{ ; } "; a.cmp(b) })] s: u8, t: u8 }'),
     (['PartialOrd', 'PartialEq'], 'enum E { A(#[partial_ord(key = ($, "x; y"))] u8), B }'),
     (['Hash'], 'struct X<T> { #[hash(key = ($.to_string(), "{ }", \'{\', \';\'))] s: T }'),
+    # LARGE items: the dumped text runs to hundreds of kilobytes
+    (['Clone'], 'struct X { %s }' % ', '.join('f%d: u8' % i for i in range(700))),
+    (['PartialOrd', 'PartialEq'], 'enum E { %s }' % ', '.join('V%d(u8, u16)' % i for i in range(260))),
     # lint-related attributes on the item, a variant, a field: what is generated for such an item is what `dump` shows
     (['Clone', 'Debug'], '#[deprecated(note = "use Y; not X")] struct X { a: u8 }'),
     (['Default', 'PartialEq'], 'enum E { #[deprecated] A(u8), #[default] B { #[deprecated(since = "1.0.0", note = "no { more }")] b: u8 } }'),
